@@ -33,7 +33,7 @@ class Bool(Sort):
 
 class Arr(Sort):
     def __init__(self, elem='float', dtype=None, ndim=1, finite=False, cols=None, conc_len=None,
-                 conc_shape=None):
+                 conc_shape=None, narrow=False):
         self.elem = elem
         self.dtype = dtype or {'float': 'float64', 'int': 'int64', 'bool': 'bool'}[elem]
         self.ndim = ndim
@@ -41,6 +41,8 @@ class Arr(Sort):
         self.cols = cols            # concrete number of columns for 2-d arrays
         self.conc_len = conc_len    # concrete length (1-d) -> concrete-shape array of symbolic cells
         self.conc_shape = conc_shape
+        # a buffer of the coordinate subtype: cells must be widened (np.float64 / float) before any arithmetic
+        self.narrow = narrow
 
 
 class Tup(Sort):
@@ -134,6 +136,8 @@ def make_symbolic(spec, state, name):
                 assumptions.append(n >= 0)
                 shape.append(n)
         arr = st.new_sym_array(state, spec.elem, spec.dtype, shape, name, finite=spec.finite)
+        if spec.narrow:
+            arr.base.meta['narrow'] = True
         return arr, assumptions
     if isinstance(spec, Tup):
         vals = []
